@@ -70,6 +70,29 @@ func preStates(c *vk.Ctx) []pre {
 			{K: hx.VAdd, I: "i", ID: "b", V: v(0, 1)},
 			{K: hx.VLink, I: "i", ID: "a", ID2: "b", S: "r", W: 1, M: map[string]any{"p": 1.0}}}},
 	}
+	// every vector deleted: the index may or may not remember the dimension (see hx.RefDB.ImplOK);
+	// a vector of another length is refused or accepted, and either answer must be clean
+	emptied := []hx.Op{mk("euclidean", "float32"),
+		{K: hx.VAdd, I: "i", ID: "a", V: v(1, 0), M: map[string]any{"s": "x"}},
+		{K: hx.VAdd, I: "i", ID: "b", V: v(0, 1)},
+		{K: hx.VDel, I: "i", ID: "a"}, {K: hx.VDel, I: "i", ID: "b"}}
+	ps = append(ps, pre{"emptied", emptied})
+	for _, tail := range [][]hx.Op{
+		{{K: hx.Restart}},
+		{{K: hx.Snapshot}, {K: hx.Restart}},
+		{{K: hx.Rewrite}, {K: hx.Restart}},
+		{{K: hx.Vacuum, I: "i"}, {K: hx.Snapshot}, {K: hx.Restart}},
+		{{K: hx.Vacuum, I: "i"}},
+	} {
+		name := "emptied"
+		for _, o := range tail {
+			name += "-" + o.K
+		}
+		ps = append(ps, pre{name, append(append([]hx.Op(nil), emptied...), tail...)})
+	}
+	// the same with the snapshot taken before the first vector
+	ps = append(ps, pre{"snapshot-then-emptied-restart", []hx.Op{mk("euclidean", "float32"), {K: hx.Snapshot},
+		{K: hx.VAdd, I: "i", ID: "a", V: v(1, 0)}, {K: hx.VDel, I: "i", ID: "a"}, {K: hx.Restart}}})
 	if c.Thorough() {
 		// every sequence of two operations of a small alphabet as additional pre-states
 		alpha := []hx.Op{
@@ -122,6 +145,8 @@ func failing() []hx.Op {
 		{K: hx.VAdd, I: "i", ID: "n1", V: v(1, 2, 3)},
 		{K: hx.VAddBatch, I: "i", Items: []hx.Item{{ID: "n1", V: v(8, 8)}, {ID: "n2", V: v(1, 2, 3)}}},
 		{K: hx.VAdd, I: "i", ID: "n1", V: nil, M: map[string]any{"s": "entity"}},
+		{K: hx.VAddBatch, I: "i", Items: []hx.Item{{ID: "n1", V: v(1, 2, 3)}, {ID: "n2", V: v(3, 2, 1), M: map[string]any{"s": "new"}}}},
+		{K: hx.VAddBatch, I: "i", Items: []hx.Item{{ID: "n1", V: nil, M: map[string]any{"s": "entity"}}}},
 		{K: hx.VLink, I: "i", ID: "a", ID2: "b", S: "r", W: 1, M: map[string]any{"bad key!": 1.0}},
 		{K: hx.VLink, I: "i", ID: "a", ID2: "b", S: "r", W: 1, M: map[string]any{"k": string(long)}},
 		{K: hx.VCreate, I: "i", Cfg: hx.Cfg("euclidean", "float32")},
@@ -151,15 +176,24 @@ func continuations() [][]hx.Op {
 	}
 }
 
-// invalidIn reports whether the model rejects op in the state reached by pre.
+// invalidIn reports whether the model rejects op in the state reached by pre, or leaves the
+// answer to the implementation (then both answers are explored as the implementation gives them:
+// a refusal must change nothing, an acceptance must read back as given).
 func invalidIn(pre []hx.Op, op hx.Op) bool {
-	r := hx.NewRefDB()
-	t := int64(1000)
-	for _, o := range pre {
-		r.Step(o, t)
-		t += 1000
+	for _, impl := range []bool{true, false} {
+		r := hx.NewRefDB()
+		t := int64(1000)
+		for _, o := range pre {
+			r.Step(o, t)
+			t += 1000
+		}
+		answer := impl
+		r.ImplOK = &answer
+		if !r.Step(op, t) {
+			return true
+		}
 	}
-	return !r.Step(op, t)
+	return false
 }
 
 func run(c *vk.Ctx) {
